@@ -418,7 +418,19 @@ pub fn hash_pair_strategy(v: Variant) -> BoxedStrategy<(Vec<u8>, Vec<u8>)> {
         let b: Vec<u8> = a.iter().map(|x| !x).collect();
         (a, b)
     });
-    prop_oneof![4 => indep, 4 => near, 1 => extreme].boxed()
+    // identical bodies with independent headers, and identical headers with independent bodies
+    // (fast paths keyed on "the bodies are equal" or "the headers are equal" live here)
+    let hdr = v.ck + 2;
+    let same_body = (hash_bytes_strategy(v), vec(any::<u8>(), hdr)).prop_map(move |(a, h)| {
+        let mut b = a.clone();
+        b[..hdr].copy_from_slice(&h);
+        (a, b)
+    });
+    let same_header = (hash_bytes_strategy(v), hash_bytes_strategy(v)).prop_map(move |(a, mut b)| {
+        b[..hdr].copy_from_slice(&a[..hdr]);
+        (a, b)
+    });
+    prop_oneof![4 => indep, 4 => near, 1 => extreme, 1 => same_body, 1 => same_header].boxed()
 }
 
 // ---------------------------------------------------------------- text
